@@ -4,6 +4,7 @@ import (
 	"fmt"
 	"go/token"
 	"go/types"
+	"strings"
 
 	"golang.org/x/tools/go/ssa"
 
@@ -174,13 +175,16 @@ type errFlow struct {
 	toReturn bool
 	toPanic  token.Pos
 	panicked bool
+	derived  map[ssa.Value]bool    // every value that carries the error (phis, conversions, wrappers, cells)
+	returns  map[*ssa.Return]bool  // the returns that hand it on
+	tests    map[*ssa.If]ssa.Value // branches on a comparison of a carrier with nil
 }
 
 // flowOfError follows an error value forward: through phis, interface
 // conversions, assertions, local cells (including named results) and calls
 // that take the error and return an error (wrappers), to returns and panics.
 func flowOfError(e ssa.Value) errFlow {
-	var f errFlow
+	f := errFlow{derived: map[ssa.Value]bool{}, returns: map[*ssa.Return]bool{}, tests: map[*ssa.If]ssa.Value{}}
 	seen := map[ssa.Value]bool{}
 	var walk func(v ssa.Value)
 	walk = func(v ssa.Value) {
@@ -188,6 +192,7 @@ func flowOfError(e ssa.Value) errFlow {
 			return
 		}
 		seen[v] = true
+		f.derived[v] = true
 		refs := v.Referrers()
 		if refs == nil {
 			return
@@ -198,6 +203,7 @@ func flowOfError(e ssa.Value) errFlow {
 				continue
 			case *ssa.Return:
 				f.used, f.toReturn = true, true
+				f.returns[x] = true
 			case *ssa.Panic:
 				f.used, f.panicked, f.toPanic = true, true, x.Pos()
 			case *ssa.Phi:
@@ -257,8 +263,17 @@ func flowOfError(e ssa.Value) errFlow {
 						walk(ev)
 					}
 				}
-			case *ssa.BinOp, *ssa.If:
+			case *ssa.BinOp:
 				// comparison with nil: a use, but not a propagation
+				f.used = true
+				if (x.Op == token.NEQ || x.Op == token.EQL) && (an.IsNilConst(x.X) || an.IsNilConst(x.Y)) && x.Referrers() != nil {
+					for _, u := range *x.Referrers() {
+						if ifi, ok := u.(*ssa.If); ok {
+							f.tests[ifi] = x
+						}
+					}
+				}
+			case *ssa.If:
 				f.used = true
 			default:
 				f.used = true
@@ -337,7 +352,11 @@ func e4Core(p *an.Prog, r *an.Result, mode string) {
 			case !fl.toReturn:
 				r.Bad(name, construct, ci.Pos(), fmt.Sprintf("the error of %s is tested but never reaches a return of %s: the failure is swallowed", callee, name))
 			default:
-				r.OK(name, construct, ci.Pos(), "flows to a return of the enclosing function")
+				if why, pos := errorCanBeLost(fn, call, fl); why != "" {
+					r.Bad(name, construct+" can be lost", pos, fmt.Sprintf("%s: %s", name, why))
+				} else {
+					r.OK(name, construct, ci.Pos(), "flows to a return of the enclosing function, on every path on which it is not nil")
+				}
 			}
 		})
 	}
@@ -408,4 +427,207 @@ func runE5(p *an.Prog, r *an.Result) {
 		}
 	}
 	r.Floor("writer parameters", 15)
+}
+
+// errorCanBeLost: although the error of the write call reaches a return on some path, there is a
+// path on which it is known (or may be) non-nil and the function goes on without returning it:
+// (1) from the non-nil edge of a test of the error, every path must end in a return that carries it,
+//
+//	except where the path recognises a sentinel (a comparison of the error's Cause() with a
+//	package-level variable: break/continue, decided by B6);
+//
+// (2) from the call, no return is reached before the error has been tested or returned.
+func errorCanBeLost(fn *ssa.Function, call *ssa.Call, fl errFlow) (string, token.Pos) {
+	carries := func(ret *ssa.Return) bool {
+		if fl.returns[ret] {
+			return true
+		}
+		res := resultsOf(ret)
+		return len(res) > 0 && fl.derived[res[len(res)-1]]
+	}
+	sentinelEdge := func(ifi *ssa.If) bool {
+		// a branch on derived.Cause() == <package-level variable>
+		found := false
+		condMentions(ifi.Cond, func(v ssa.Value) bool {
+			b, ok := v.(*ssa.BinOp)
+			if !ok || (b.Op != token.EQL && b.Op != token.NEQ) {
+				return false
+			}
+			for _, pair := range [][2]ssa.Value{{b.X, b.Y}, {b.Y, b.X}} {
+				c := an.CallOf(pair[0])
+				if c == nil || !c.IsInvoke() || c.Method.Name() != "Cause" || !fl.derived[c.Value] {
+					continue
+				}
+				if u, ok := pair[1].(*ssa.UnOp); ok {
+					if _, isG := u.X.(*ssa.Global); isG {
+						found = true
+					}
+				}
+			}
+			return false
+		}, 0)
+		return found
+	}
+	// (1)
+	for ifi, cmp := range fl.tests {
+		b := cmp.(*ssa.BinOp)
+		nonNil := ifi.Block().Succs[0]
+		if b.Op == token.EQL {
+			nonNil = ifi.Block().Succs[1]
+		}
+		seen := map[*ssa.BasicBlock]bool{}
+		why := ""
+		var pos token.Pos
+		var dfs func(blk *ssa.BasicBlock)
+		dfs = func(blk *ssa.BasicBlock) {
+			if seen[blk] || why != "" {
+				return
+			}
+			seen[blk] = true
+			last := blk.Instrs[len(blk.Instrs)-1]
+			switch x := last.(type) {
+			case *ssa.Return:
+				if !carries(x) {
+					why, pos = "after the error was found non-nil a path returns without it", x.Pos()
+				}
+				return
+			case *ssa.Panic:
+				return
+			case *ssa.If:
+				if sentinelEdge(x) {
+					return // break/continue sentinel handling: rule B6
+				}
+			}
+			for _, s := range blk.Succs {
+				if s == ifi.Block() || s.Dominates(ifi.Block()) && reachesBlock(s, s) {
+					why, pos = "after the error was found non-nil a path goes round the loop again without returning it", an.InstrPos(last)
+					return
+				}
+				dfs(s)
+			}
+		}
+		dfs(nonNil)
+		if why != "" {
+			return why, pos
+		}
+	}
+	// (2)
+	seen := map[*ssa.BasicBlock]bool{}
+	why := ""
+	var pos token.Pos
+	var dfs func(blk *ssa.BasicBlock, first bool)
+	dfs = func(blk *ssa.BasicBlock, first bool) {
+		if (!first && seen[blk]) || why != "" {
+			return
+		}
+		seen[blk] = true
+		last := blk.Instrs[len(blk.Instrs)-1]
+		switch x := last.(type) {
+		case *ssa.Return:
+			if !carries(x) {
+				res := resultsOf(x)
+				if len(res) > 0 && an.IsNilConst(res[len(res)-1]) {
+					why, pos = "a path from the write returns success without the error having been looked at", x.Pos()
+				} else {
+					why, pos = "a path from the write returns another error before the writer's own error has been looked at", x.Pos()
+				}
+			}
+			return
+		case *ssa.Panic:
+			return
+		case *ssa.If:
+			if _, tested := fl.tests[x]; tested {
+				return
+			}
+		}
+		for _, s := range blk.Succs {
+			dfs(s, false)
+		}
+	}
+	dfs(call.Block(), true)
+	return why, pos
+}
+
+// ---------------------------------------------------------------------------
+// E8
+
+func init() {
+	register("E8", "an error produced inside a loop is looked at inside that loop: it is not left in a variable that the next iteration overwrites", runE8)
+}
+
+func runE8(p *an.Prog, r *an.Result) {
+	roles := GetRoles(p)
+	for _, fn := range p.Funcs {
+		if isMainPkg(fn) || p9OutOfScope(p, fn) != "" && !strings.Contains(p9OutOfScope(p, fn), "Scan") {
+			continue
+		}
+		name := roles.Label(fn)
+		an.EachInstr(fn, func(in ssa.Instruction) {
+			call, ok := in.(*ssa.Call)
+			if !ok || !reachesBlock(call.Block(), call.Block()) {
+				return
+			}
+			sig := callSig(&call.Call)
+			if sig == nil {
+				return
+			}
+			ei := errResultIndex(sig)
+			if ei < 0 {
+				return
+			}
+			ev := errorValueOf(call, ei)
+			if ev == nil {
+				return // discarded outright: not this rule's business
+			}
+			r.Counts["errors produced in loops"]++
+			fl := flowOfError(ev)
+			inLoop := func(b *ssa.BasicBlock) bool {
+				return reachesBlock(b, call.Block()) && reachesBlock(call.Block(), b)
+			}
+			examined := false
+			for ifi := range fl.tests {
+				if inLoop(ifi.Block()) {
+					examined = true
+				}
+			}
+			for ret := range fl.returns {
+				if inLoop(ret.Block()) || true {
+					_ = ret
+				}
+			}
+			// handed on inside the loop (returned, passed to a call, stored away)?
+			if !examined && ev.Referrers() != nil {
+				for v := range fl.derived {
+					if v.Referrers() == nil {
+						continue
+					}
+					for _, u := range *v.Referrers() {
+						switch x := u.(type) {
+						case *ssa.Return, *ssa.Panic:
+							if inLoop(x.Block()) {
+								examined = true
+							}
+						case *ssa.Call:
+							if inLoop(x.Block()) && x != call {
+								examined = true
+							}
+						}
+					}
+				}
+			}
+			var carrier *ssa.Phi
+			for v := range fl.derived {
+				if ph, ok := v.(*ssa.Phi); ok && ph.Block().Dominates(call.Block()) && inLoop(ph.Block()) {
+					carrier = ph
+				}
+			}
+			construct := "error of " + nonEmpty(an.CallName(&call.Call), "dynamic call") + " in a loop"
+			if !examined && carrier != nil {
+				r.Bad(name, construct+" is carried into the next iteration unexamined", call.Pos(), fmt.Sprintf("%s keeps the error in %s and tests it only after the loop: a later iteration that succeeds overwrites an earlier failure", an.FuncName(fn), nonEmpty(carrier.Comment, carrier.Name())))
+			} else {
+				r.OK(name, construct, call.Pos(), "tested, returned or handed on inside the loop (or not loop-carried)")
+			}
+		})
+	}
+	r.Floor("errors produced in loops", 5)
 }
